@@ -30,3 +30,30 @@ uint8_t vw_splitGetLen(const uint8_t *p) {
     varintSplitGetLen_(p, n);
     return n;
 }
+
+/* varintSplitFull16.h */
+uint8_t vw_split16Put(uint8_t *dst, uint64_t val) {
+    uint8_t len = 0;
+    varintSplitFull16Put_(dst, len, val);
+    return len;
+}
+uint8_t vw_split16Length(uint64_t val) {
+    uint8_t len = 0;
+    varintSplitFull16Length_(len, val);
+    return len;
+}
+uint8_t vw_split16Get(const uint8_t *p, uint64_t *out) {
+    uint8_t n = 0;
+    uint64_t v = 0;
+    varintSplitFull16Get_(p, n, v);
+    *out = v;
+    return n;
+}
+uint8_t vw_split16GetLen(const uint8_t *p) {
+    uint8_t n = 0;
+    varintSplitFull16GetLen_(p, n);
+    return n;
+}
+uint8_t vw_split16GetLenQuick(const uint8_t *p) {
+    return (uint8_t)varintSplitFull16GetLenQuick_(p);
+}
